@@ -108,9 +108,9 @@ theorem at_flush (c : Cfg) (ops : List Op) :
 reply that arrives while the bottom port is full, a flush in the middle) in which accesses are
 received, forwarded to *different* physical pages, answered, and one is discarded by the flush. -/
 def demoOps : List Op :=
-  [.access 1 0x1004 ⟨false, 4, [], []⟩, .tick, .drainTr, .access 2 0x1008 ⟨false, 4, [], []⟩, .tick,
+  [.access 1 0x1004 ⟨false, 4, [], [], false⟩, .tick, .drainTr, .access 2 0x1008 ⟨false, 4, [], [], false⟩, .tick,
    .drainTr, .trsp ⟨0, 0x11000⟩, .tick, .trsp ⟨1, 0x12000⟩, .tick, .drainBot, .tick, .tick,
-   .brsp ⟨0, some [1, 2, 3, 4]⟩, .tick, .access 1 0x2000 ⟨true, 2, [7, 8], [true, false]⟩, .tick,
+   .brsp ⟨0, some [1, 2, 3, 4]⟩, .tick, .access 1 0x2000 ⟨true, 2, [7, 8], [true, false], false⟩, .tick,
    .ctl .flush, .tick, .drainBot, .brsp ⟨1, some [5, 6, 7, 8]⟩, .tick]
 
 example :
@@ -457,14 +457,14 @@ def demoEnv : Env := ⟨fun pid vp => 0x100000 * pid + vp, fun b => if b.pl.isWr
 /-- two PIDs on the same virtual page; the second reply arrives while the bottom port is full and
 the component goes to sleep on it -/
 def demoH1 : List HOp :=
-  [.access 1 0x1004 ⟨false, 4, [], []⟩, .tick, .drainTr, .ansT 0, .tick,
-   .access 2 0x1008 ⟨false, 4, [], []⟩, .tick, .drainTr, .ansT 0, .tick, .tick]
+  [.access 1 0x1004 ⟨false, 4, [], [], false⟩, .tick, .drainTr, .ansT 0, .tick,
+   .access 2 0x1008 ⟨false, 4, [], [], false⟩, .tick, .drainTr, .ansT 0, .tick, .tick]
 
 /-- … the memory takes the first request (wake-up), the first access completes; then flush, restart, a
 new access, and only then the memory answers the request forwarded before the flush -/
 def demoH2 : List HOp :=
   demoH1 ++ [.drainBot, .tick, .ansM 0, .tick, .drainTop, .drainBot, .flush, .tick, .drainCtl,
-    .restart, .tick, .drainCtl, .access 1 0x2010 ⟨false, 4, [], []⟩, .tick, .ansM 0]
+    .restart, .tick, .drainCtl, .access 1 0x2010 ⟨false, 4, [], [], false⟩, .tick, .ansM 0]
 
 /-- every world of the demo runs below is reachable, so the closed-world theorems apply to them -/
 theorem demo_reach (os : List HOp) : Reach ⟨1, 12⟩ demoEnv (hrun ⟨1, 12⟩ demoEnv {} os) :=
